@@ -225,7 +225,10 @@ def run_prover(pid: str, seed: int, jobs: int = 16, only: Optional[str] = None) 
 
 
 def proved_tier(rep: Report, pid: str, seed: int, expected_min_obligations: int = 1,
-                only: Optional[str] = None) -> Dict[str, Any]:
+                only: Optional[str] = None, backstop: bool = True) -> Dict[str, Any]:
+    """backstop: the calling check also runs a bounded part for the same property; a function that has left
+    the verified subset and has no bounded shadow of its own is then decided by that part (recorded as not
+    proved), instead of leaving the check undecided -- a harmless refactoring must not raise an alarm."""
     reg = C.load_all()
     try:
         data = run_prover(pid, seed, only=only)
@@ -247,6 +250,9 @@ def proved_tier(rep: Report, pid: str, seed: int, expected_min_obligations: int 
                        "only its bounded shadow was checked")
             if c is not None and c.native:
                 shadow(rep, c, reg, seed, n=400)
+            elif backstop:
+                rep.assume(f"{key}: not proved in this tree and no bounded shadow of its own; the bounded part of this "
+                           "check is the only decision for the behaviour it covers")
             else:
                 rep.undecided_obligation(f"{key}: {r['status']} and no bounded shadow")
             continue
